@@ -45,7 +45,9 @@ def run(ctx):
     os.makedirs(dbdir, exist_ok=True)
     runs = [("enum", ctx.tlc_design("periph/StoreCacheGen", "cfg/StoreCacheGen.%s.cfg" % ("quick" if quick else "thorough"),
                                     workers=1, timeout=3000, heap="12g", tag="enum")),
-            ("deep", ctx.tlc_design("periph/StoreCacheGen", "cfg/StoreCacheGen.deep.cfg", workers=1, timeout=1200, tag="deep"))]
+            ("deep", ctx.tlc_design("periph/StoreCacheGen", "cfg/StoreCacheGen.deep.cfg", workers=1, timeout=1200, tag="deep")),
+            # two competing blocks on each of two heights: SaveChainStatus with two main-chain headers after warm reads
+            ("reorg", ctx.tlc_design("periph/StoreCacheGen", "cfg/StoreCacheGen.reorg.cfg", workers=1, timeout=1200, tag="reorg"))]
     if not quick:
         runs.append(("mid", ctx.tlc_design("periph/StoreCacheGen", "cfg/StoreCacheGen.mid.cfg", workers=1, timeout=3000,
                                            heap="12g", tag="mid")))
@@ -100,7 +102,8 @@ def run(ctx):
         negative_control="corrupted reference header result noticed",
         exhaustive=True,
         rule="R: every transition of StoreCache.tla over %s, <=4 calls (BFS, with the path reaching it; behaviours ending in a write "
-             "are followed by a probe of all cached reads), a one-block instance with <=7 calls%s, and all successors along %d seeded "
+             "are followed by a probe of all cached reads), a one-block instance with <=7 calls, a reorganisation instance (2 competing blocks on each of 2 heights, SaveChainStatus with 1 "
+             "and 2 main-chain headers in both orders, <=4 calls)%s, and all successors along %d seeded "
              "random behaviours of 10 calls (3 blocks); each read issued twice on the long-lived Store and once on a fresh Store"
              % ("2 competing blocks at one height, supLink variants {0,1}, 4 checkpoint batches" if quick else
                 "3 blocks on 2 heights, supLink variants {0,1,2}, 6 checkpoint batches",
